@@ -114,6 +114,13 @@ func DeepEqual(x, y interface{}) bool {
 		typy = typy.Elem()
 	}
 
+	// integers are compared exactly: float64 cannot tell apart 64-bit values above 2^53
+	if negx, magx, ok := parseIntegerIfOk(typx); ok {
+		if negy, magy, ok := parseIntegerIfOk(typy); ok {
+			return negx == negy && magx == magy
+		}
+	}
+
 	flx, okx := parseFloatIfOk(typx)
 	fly, oky := parseFloatIfOk(typy)
 	if okx && oky {
@@ -121,6 +128,21 @@ func DeepEqual(x, y interface{}) bool {
 	}
 
 	return reflect.DeepEqual(typx.Interface(), typy.Interface())
+}
+
+// parseIntegerIfOk returns sign and magnitude of an integer value of any kind
+func parseIntegerIfOk(val reflect.Value) (neg bool, mag uint64, ok bool) {
+	switch val.Kind() {
+	case reflect.Int, reflect.Int8, reflect.Int16, reflect.Int32, reflect.Int64:
+		v := val.Int()
+		if v < 0 {
+			return true, uint64(-(v + 1)) + 1, true
+		}
+		return false, uint64(v), true
+	case reflect.Uint, reflect.Uint8, reflect.Uint16, reflect.Uint32, reflect.Uint64, reflect.Uintptr:
+		return false, val.Uint(), true
+	}
+	return false, 0, false
 }
 
 func parseFloatIfOk(val reflect.Value) (float64, bool) {
